@@ -94,16 +94,36 @@ func (pq *PQMode) centroid(sub, c int) []float32 {
 	return pq.Centroids[start : start+pq.SubLen]
 }
 
-func (pq *PQMode) distance(q []float32, code []byte) (float64, error) {
-	total := 0.0
+// distance also returns the magnitude of the summed terms: centroids are means (arbitrary
+// float32 values), so the float32 sum of the implementation carries a rounding error
+// proportional to that magnitude, not to the (possibly cancelling) result.
+func (pq *PQMode) distance(q []float32, code []byte) (float64, float64, error) {
+	total, mag := 0.0, 0.0
 	for i := 0; i < pq.NumSub; i++ {
-		d, err := refFloatDistance(pq.Metric, q[i*pq.SubLen:(i+1)*pq.SubLen], pq.centroid(i, int(code[i])))
+		qs, c := q[i*pq.SubLen:(i+1)*pq.SubLen], pq.centroid(i, int(code[i]))
+		d, err := refFloatDistance(pq.Metric, qs, c)
 		if err != nil {
-			return 0, err
+			return 0, 0, err
 		}
 		total += d
+		for k := range qs {
+			switch pq.Metric {
+			case models.DistanceEuclidean:
+				mag += float64(qs[k])*float64(qs[k]) + float64(c[k])*float64(c[k])
+			default:
+				mag += math.Abs(float64(qs[k]) * float64(c[k]))
+			}
+		}
 	}
-	return total, nil
+	return total, mag, nil
+}
+
+// pqAbsTol: extra absolute tolerance per candidate of the last VectorCandidates call
+// (nil unless a product quantiser is in force); used by CheckValidRanked / CheckExactTopK.
+var pqAbsTol map[uuid.UUID]float64
+
+func closeV(id uuid.UUID, a, b float64) bool {
+	return closeF(a, b) || math.Abs(a-b) <= pqAbsTol[id]
 }
 
 // pqEffectiveMetric: what the product quantiser is documented to apply per
@@ -204,7 +224,14 @@ func (m *RefShard) CheckPQ(prop string, dim int, vm VecMode, fresh map[uuid.UUID
 				best = math.Min(best, dd)
 			}
 			got, _ := refFloatDistance(pq.Metric, sub, pq.centroid(i, int(code[i])))
-			if got > best && !closeF(got, best) {
+			mag := 0.0 // the implementation picks the centroid in float32: allow its rounding
+			for k := range sub {
+				for c := 0; c < pq.NumCent; c++ {
+					ck := float64(pq.centroid(i, c)[k])
+					mag = math.Max(mag, float64(sub[k])*float64(sub[k])+ck*ck)
+				}
+			}
+			if got > best && !closeF(got, best) && got-best > 4e-6*mag*float64(len(sub)) {
 				return fmt.Sprintf("point %d written after training: sub-vector %d %v is coded as centroid %d (distance %g) but the nearest centroid is at %g", PIDIndex(id), i, sub, code[i], got, best)
 			}
 		}
@@ -282,6 +309,10 @@ func docVector(d Doc, prop string, dim int) ([]float32, bool) {
 // carries the vector field and passes the filter (nil filter = all).
 func (m *RefShard) VectorCandidates(prop string, dim int, vm VecMode, q []float32, filter *IDSet) (map[uuid.UUID]float64, error) {
 	out := map[uuid.UUID]float64{}
+	pqAbsTol = nil
+	if vm.PQ != nil {
+		pqAbsTol = map[uuid.UUID]float64{}
+	}
 	for id, d := range detRange(m.Docs) {
 		if filter != nil && !filter.Must[id] {
 			continue
@@ -297,7 +328,9 @@ func (m *RefShard) VectorCandidates(prop string, dim int, vm VecMode, q []float3
 			if !ok || vm.PQ.Problem != "" {
 				return nil, fmt.Errorf("product quantiser state unusable (CheckPQ reports it): point %d", PIDIndex(id))
 			}
-			dist, err = vm.PQ.distance(q, code)
+			var mag float64
+			dist, mag, err = vm.PQ.distance(q, code)
+			pqAbsTol[id] = 2e-6 * mag // float32 accumulation over a handful of terms
 		} else {
 			dist, err = vm.Distance(q, v)
 		}
@@ -343,7 +376,7 @@ func CheckValidRanked(want map[uuid.UUID]float64, got []Item, limit int, weight 
 			return fmt.Sprintf("id %d has no _distance", it.ID)
 		}
 		d := float64(*it.Dist)
-		if !opaque && !closeF(d, ref) {
+		if !opaque && !closeV(PID(it.ID), d, ref) {
 			return fmt.Sprintf("id %d: reported distance %g, definition gives %g", it.ID, d, ref)
 		}
 		if d < prev && !closeF(d, prev) {
@@ -376,12 +409,12 @@ func CheckExactTopK(want map[uuid.UUID]float64, got []Item, limit int) string {
 	seen := map[uuid.UUID]bool{}
 	for _, it := range got {
 		seen[PID(it.ID)] = true
-		if ref := want[PID(it.ID)]; ref > kth && !closeF(ref, kth) {
+		if ref := want[PID(it.ID)]; ref > kth && !closeF(ref, kth) && ref-kth > 2*pqAbsTol[PID(it.ID)] {
 			return fmt.Sprintf("id %d (distance %g) returned although %d candidates are closer than it (k-th distance %g)", it.ID, ref, n, kth)
 		}
 	}
 	for id, d := range detRange(want) {
-		if d < kth && !closeF(d, kth) && !seen[id] {
+		if d < kth && !closeF(d, kth) && kth-d > 2*pqAbsTol[id] && !seen[id] {
 			return fmt.Sprintf("id %d at distance %g is among the %d nearest (k-th distance %g) but was not returned", PIDIndex(id), d, n, kth)
 		}
 	}
